@@ -182,6 +182,9 @@ def check(prog, run):
     # S6: a failing top-level field must not stop the chain: every runtime routes ResolverError (and its subclasses) to else_
     from . import c08
     c08.check_map_value_contract(prog, run, "S6")
+    # S7: the ordered map of collected root fields defines document order for the serial chain (shared with C04.K5)
+    from . import c04
+    c04.check_seen_scope(prog, run, "S7")
 
 
 def _s4(prog, run):
